@@ -58,6 +58,10 @@ def build_gateway(in_levels, out_levels, raising=False, persistence_file=None, f
         kw.update(persistence=True, persistence_file=persistence_file)
     cls = gateway_mqtt.MQTTGateway if flavour == "sync" else gateway_mqtt.AsyncMQTTGateway
     gw = cls(pub, sub, in_prefix="/".join(in_levels), out_prefix="/".join(out_levels), retain=True, **kw)
+    # a second gateway object of the same class and version in the same process, created afterwards and never started:
+    # nothing of the gateway under observation may end up at its callbacks (gateways do not share mutable state)
+    gw._verif_decoy = cls(lambda *a: None, lambda *a: None, in_prefix="decoy-in", out_prefix="decoy-out", retain=False,
+                          protocol_version=kw["protocol_version"])
     return gw, pubs, subs, handed
 
 
